@@ -342,19 +342,18 @@ def gen_config(ctx, info, k):
                     t['forward_req_params'] = rng.sample(DIM_KEYS, rng.randrange(1, 4))
                 elif what == 'srs':
                     old = list(s.get('supported_srs', []))
-                    how = rng.choice(['prefix', 'extended', 'reversed', 'random', 'prefix', 'extended'])
+                    how = rng.choice(['prefix', 'extended', 'reversed', 'random', 'prefix', 'extended', 'alias', 'alias'])
                     if how == 'prefix' and len(old) >= 2:
                         t['supported_srs'] = old[:rng.randrange(1, len(old))]
                     elif how == 'extended' and old:
                         t['supported_srs'] = old + [rng.choice([c for c in SRS_CODES if c not in old])]
                     elif how == 'reversed' and len(old) >= 2:
                         t['supported_srs'] = old[::-1]
+                    elif how == 'alias' and old:
+                        # the same SRS spelled with other codes (EPSG:3857 / EPSG:900913, EPSG:4326 / CRS:84)
+                        t['supported_srs'] = [rng.choice([c for c in SRS_CODES if info.same(c, o)]) for o in old]
                     else:
                         t['supported_srs'] = rng.sample(SRS_CODES, rng.randrange(1, 4))
-                    if [info.cls[c] for c in old] == [info.cls[c] for c in t['supported_srs']]:
-                        t['supported_srs'] = list(old)     # equal lists spelled differently: not generated
-                        if not old:
-                            t.pop('supported_srs')
                 elif what == 'url':
                     t['req']['url'] = 'http://other%d.example/service?' % i
                 elif what == 'formats':
